@@ -109,7 +109,7 @@ def T_fixed : Table := { compute := demoCompute, kind := fun _ => .memoThenCopy 
 def w0 : World := construct [[5, 6]]
 
 /-- `lru_cache` handing out the cached ndarray: read `dominators_of`, write into the result, read again —
-the second answer differs from the first. The history is `corpus/C02/dominators-of-shared.json`. -/
+the second answer differs from the first. The history is `corpus/C02/01-f2-dominators-of-shared.json`. -/
 theorem memoShared_breaks :
     answer T_v0 (run T_v0 w0 [.read 7, .write 2 0 0]) 7 ≠ answer T_v0 w0 7 := by decide
 
